@@ -51,8 +51,8 @@ REQUIRED = [
     "C09_separate_partial",
     "C09_order_partial",
 ]
-BUDGET = {"quick": 96, "thorough": 900}
-QUICK_JOBS = 6
+BUDGET = {"quick": 80, "thorough": 900}
+QUICK_JOBS = 8
 TIME_LIMIT = {"quick": 170, "thorough": 1400}
 RULE = (
     "families of 2-5 constructs (fields and domains) derived from one ancestor (hand-built lat/lon and hybrid-height "
@@ -292,7 +292,8 @@ def abstract_field(f, ids):
             cms.append("+".join(ax) + ":" + str(mid))
     # a field's own content has the same identity as a construct with these properties and data
     fsig = ids(["domain", FP.fp_props(f)]) if dom else ids(main_fp(f))
-    atxt = ",".join(":".join([str(a.get_size()), oname(a.nc_get_dimension(None)), "1" if k in data_axes else "0"]) for k, a in axes)
+    atxt = ",".join(":".join([str(a.get_size()), oname(a.nc_get_dimension(None)), "1" if k in data_axes else "0",
+                              "1" if a.nc_is_unlimited() else "0"]) for k, a in axes)
     dax = [] if dom else [aidx[a] for a in f.get_data_axes(default=())]
     txt = ";".join(["1" if dom else "0", str(fsig), oname(f.nc_get_variable(None)), oname(f.get_property("standard_name", None)),
                     atxt, ",".join(cons), ",".join(gms), ",".join(vrefs), ",".join(cms), "+".join(map(str, dax))])
